@@ -20,6 +20,15 @@
         -> (vals E+)   inhabitants of type id N (Typed.enum_inputs), as
            E ::= (i) | (b) | (r) | (t NAME|- (LABEL|- E)+) | (f C) | (p C) | (res NAME)
      (closed (t N) REG-parts..) -> 0|1   (Sem.closedb on the variable-opened registry)
+     (core (fns (CTY CEXP)+) (e CEXP))
+        the core fragment of typed/Core.v: the extracted judgement `infer` and evaluator `eval`
+        CTY  ::= int | bin | (tup NAME|- CTY+) | (union CTY+)          NAME: a number
+        CEXP ::= (int z) | (bin len) | (tup NAME|- CEXP+) | (var x) | (get CEXP i) | (add CEXP CEXP)
+               | (len CEXP) | (let x CEXP CEXP) | (letas x CTY CEXP CEXP)
+               | (case x ((CPAT CEXP)+) CEXP) | (call f CEXP)
+        CPAT ::= (pty CTY) | (ptup NAME|- (x|_)+)
+        -> (ty CTY) (val CVAL) | (ty CTY) (val stuck) | (ty none)
+           CVAL ::= (i z) | (b len) | (t NAME|- CVAL+)
 
    Integers and binary contents are not inspected by the judgement (Sem.Inh_int / Inh_bin hold
    for every z / b): the driver feeds 0 / the empty handle. Names and labels are interned to
@@ -194,6 +203,73 @@ let run_closed args =
   let t = match find "t" args with Some [t] -> nat_atom t | _ -> failwith "no type" in
   print_endline (if closedb (open_reg p.tp_reg) t then "1" else "0")
 
+(* ---- the core fragment (typed/Core.v) *)
+let rec pos_of_int n = if n <= 1 then XH else if n land 1 = 0 then XO (pos_of_int (n lsr 1)) else XI (pos_of_int (n lsr 1))
+let z_of_int n = if n = 0 then Z0 else if n > 0 then Zpos (pos_of_int n) else Zneg (pos_of_int (- n))
+let rec int_of_pos = function XH -> 1 | XO p -> 2 * int_of_pos p | XI p -> 2 * int_of_pos p + 1
+let int_of_z = function Z0 -> 0 | Zpos p -> int_of_pos p | Zneg p -> - (int_of_pos p)
+
+let core_name s = if is_dash s then None else Some (nat_atom s)
+
+let rec cty_of (s : Sexp.t) : cty =
+  match s with
+  | Sexp.Atom "int" -> TyInt
+  | Sexp.Atom "bin" -> TyBin
+  | Sexp.List (Sexp.Atom "tup" :: n :: ts) -> TyTup (core_name n, List.map cty_of ts)
+  | Sexp.List (Sexp.Atom "union" :: ts) -> TyUnion (List.map cty_of ts)
+  | _ -> failwith "bad core type"
+
+let cpat_of (s : Sexp.t) : pat =
+  match s with
+  | Sexp.List [Sexp.Atom "pty"; t] -> PTy (cty_of t)
+  | Sexp.List (Sexp.Atom "ptup" :: n :: bs) ->
+    PTup (core_name n, List.map (fun b -> if Sexp.atom b = "_" then None else Some (nat_atom b)) bs)
+  | _ -> failwith "bad core pattern"
+
+let rec cexp_of (s : Sexp.t) : exp =
+  match s with
+  | Sexp.List (Sexp.Atom h :: a) ->
+    (match h, a with
+     | "int", [z] -> EInt (z_of_int (int_of_string (Sexp.atom z)))
+     | "bin", [l] -> EBinLit (nat_atom l)
+     | "tup", n :: es -> ETup (core_name n, List.map cexp_of es)
+     | "var", [x] -> EVar (nat_atom x)
+     | "get", [e; i] -> EGet (cexp_of e, nat_atom i)
+     | "add", [e1; e2] -> EAdd (cexp_of e1, cexp_of e2)
+     | "len", [e] -> ELen (cexp_of e)
+     | "let", [x; e1; e2] -> ELet (nat_atom x, cexp_of e1, cexp_of e2)
+     | "letas", [x; t; e1; e2] -> ELetAs (nat_atom x, cty_of t, cexp_of e1, cexp_of e2)
+     | "case", [x; Sexp.List brs; d] ->
+       ECase (nat_atom x,
+              List.map (function Sexp.List [p; b] -> (cpat_of p, cexp_of b) | _ -> failwith "bad branch") brs,
+              cexp_of d)
+     | "call", [f; e] -> ECall (nat_atom f, cexp_of e)
+     | _ -> failwith ("bad core expression " ^ h))
+  | _ -> failwith "bad core expression"
+
+let str_cname = function None -> "-" | Some n -> string_of_int (int_of_nat n)
+let rec dump_cty = function
+  | TyInt -> "int" | TyBin -> "bin"
+  | TyTup (n, ts) -> Printf.sprintf "(tup %s%s)" (str_cname n) (String.concat "" (List.map (fun t -> " " ^ dump_cty t) ts))
+  | TyUnion ts -> Printf.sprintf "(union%s)" (String.concat "" (List.map (fun t -> " " ^ dump_cty t) ts))
+let rec dump_cval = function
+  | CInt z -> Printf.sprintf "(i %d)" (int_of_z z)
+  | CBin l -> Printf.sprintf "(b %d)" (int_of_nat l)
+  | CTup (n, vs) -> Printf.sprintf "(t %s%s)" (str_cname n) (String.concat "" (List.map (fun v -> " " ^ dump_cval v) vs))
+
+let core_fuel = nat_of_int 400
+
+let run_core args =
+  let fns = match find "fns" args with
+    | Some l -> List.map (function Sexp.List [t; b] -> (cty_of t, cexp_of b) | _ -> failwith "bad fn") l
+    | None -> [] in
+  let e = match find "e" args with Some [e] -> cexp_of e | _ -> failwith "no expression" in
+  match infer fns core_fuel [] e with
+  | None -> print_endline "(ty none)"
+  | Some t ->
+    let v = match eval fns core_fuel [] e with Some v -> dump_cval v | None -> "stuck" in
+    Printf.printf "(ty %s) (val %s)\n" (dump_cty t) v
+
 let () =
   try
     while true do
@@ -206,6 +282,7 @@ let () =
            | [Sexp.List (Sexp.Atom "judge" :: args)] -> run_judge args
            | [Sexp.List (Sexp.Atom "enum" :: args)] -> run_enum args
            | [Sexp.List (Sexp.Atom "closed" :: args)] -> run_closed args
+           | [Sexp.List (Sexp.Atom "core" :: args)] -> run_core args
            | _ -> print_endline "(bad-case unknown)"
          with
          | Stack_overflow -> print_endline "(stack-overflow)"
